@@ -624,7 +624,9 @@ func c03Entry(entry string, data string, mode string) (class string, detail sx.S
 		w.nodes[2].fields[7] = behav{kind: "echo", k: 2}
 		w.nodes[1].fields[5] = behav{kind: "const", v: sx.L("node", "2")}
 		w.nodes[1].fields[6] = behav{kind: "const", v: sx.L("node", "3")}
-		_ = root.ParseString("type Query { f1: T20 f2(a1: Int!, a2: [String], a3: T40, a4: T41): Int f5: T28 f6: T28 } interface T28 { f7(a1: Int, a2: Int): Int } type T20 implements T28 { f3: String f1: T20 f4: [T20] f7(a1: Int, a2: Int): Int } type T21 implements T28 { f7(a1: Int, a2: Int): Int } input T40 { a1: Int! a2: [T40] } input T41 { n: Int = 1 next: T41 = {} list: [T41] = [{}] }")
+		_ = root.ParseString("input T42 { tags: [String] n: Int nums: [Int] }\n")
+		_ = root.RegisterType(&c03In42{}, "T42") // an input type bound to a Go struct
+		_ = root.ParseString("type Query { f1: T20 f2(a1: Int!, a2: [String], a3: T40, a4: T41, a5: T42): Int f5: T28 f6: T28 } interface T28 { f7(a1: Int, a2: Int): Int } type T20 implements T28 { f3: String f1: T20 f4: [T20] f7(a1: Int, a2: Int): Int } type T21 implements T28 { f7(a1: Int, a2: Int): Int } input T40 { a1: Int! a2: [T40] } input T41 { n: Int = 1 next: T41 = {} list: [T41] = [{}] }")
 		_ = root.RegisterType(newNodeObj(w, -1, 20, true), "T20")
 		_ = root.RegisterType(newNodeObj(w, -1, 21, true), "T21")
 		// request parsing and printing of whatever the reader returned, then resolution
@@ -649,6 +651,13 @@ func c03Entry(entry string, data string, mode string) (class string, detail sx.S
 		return "ok", "-"
 	}
 	return "bad-entry", "-"
+}
+
+// c03In42: the Go struct input type T42 is bound to
+type c03In42 struct {
+	Tags []string
+	N    int32
+	Nums []int32
 }
 
 func c03Exec(input sx.S) sx.S {
@@ -752,6 +761,8 @@ fragment F on T20 { f3 f1 { f3 } }`, `{ f1 { f3 f4 { f3 } } }`, `mutation M { f1
 		`{ f5 { ...S } f6 { ...S } } fragment S on T28 { f7(a2: 2) }`, `{ f5 { f7(a1: 1) } f6 { f7(a2: 2) ... on T21 { f7(a1: 3) } } }`,
 		// fragments that reach themselves only through an inline fragment, a field, a list, one another
 		`{ ...A } fragment A on Query { f1 { f3 } ... on Query { ...A } }`, `{f1{...F}} fragment F on T20 { f3 ... { ...F } }`,
+		// an input type bound to a Go struct: nulls for the field and inside its lists, numbers for strings
+		`{ f2(a1: 1, a5: {tags: ["x", null], n: 2, nums: [1, null]}) }`, `{ f2(a1: 1, a5: {tags: null, n: null}) }`, `query($v: T42 = {tags: [null]}) { f2(a1: 1, a5: $v) }`, `{ f2(a1: 1, a5: {tags: [1], nums: ["x"], zzz: 1}) }`,
 		// a list under a key the input type does not declare
 		`{ f2(a1: 1, a3: {a1: 1, bogus: [1, 2]}) }`, `{ f2(a1: 1, a3: {a1: 1, extra: [[$v1]]}) }`, `{ f2(a1: 1, a4: {zzz: {k: [1, {j: []}]}}) }`,
 		"{ f2(a1: 1, a2: [\"😀\", \"𐍈\"]) f1 { f3 } }", "query($v: [String] = [\"😀\"]) { f2(a1: 1, a2: $v) }",
